@@ -1,6 +1,8 @@
 """X03a driver: replays a call history on a real dns.namedict.NameDict and records one
 event per call (arguments, outcome, result, projection of the content and of the
 max_depth / max_depth_items attributes).  Drives and projects only - no verdicts."""
+import signal
+
 import dns.name
 import dns.namedict
 
@@ -97,10 +99,27 @@ def replay(hist, probes, tid):
     return {"tid": tid, "ev": ev}
 
 
+class Budget(BaseException):
+    pass
+
+
+def _budget(signum, frame):
+    raise Budget("CPU budget of %ds exceeded" % CPU_BUDGET_S)
+
+
+CPU_BUDGET_S = 5
+
+
 def run_job(job):
     hist, probes, tid = job
+    # CPU-time budget (not wall clock): a call that never returns becomes a driver-error event
+    signal.signal(signal.SIGVTALRM, _budget)
+    signal.setitimer(signal.ITIMER_VIRTUAL, CPU_BUDGET_S)
     try:
-        return replay(hist, probes, tid)
-    except Exception as x:  # a driver failure is an event nobody matches
+        r = replay(hist, probes, tid)
+        signal.setitimer(signal.ITIMER_VIRTUAL, 0)
+        return r
+    except (Exception, Budget) as x:  # a driver failure is an event nobody matches
+        signal.setitimer(signal.ITIMER_VIRTUAL, 0)
         return {"tid": tid, "ev": [{"op": "init", "m": [], "res": "ok", "st": [], "n": 0, "md": 0, "mi": 0},
                                    {"op": "driver-error", "exc": repr(x)}]}
